@@ -17,49 +17,75 @@ EXPLANATION = (
 TECHNIQUE = "static analysis: resolved-callee identity + provenance (def-use) rules on the LSP handlers"
 
 
+def family(facts, fn):
+    return [fn] + facts.closures_of(fn)
+
+
 def r1_def_ident(c, facts):
     R = c.rule('C17.R1', 'DEF-IDENT: references are matched by Definition identity over all modules')
     fr = c.anchor(R, 'oal_client::lsp::handlers::find_references')
-    idx = MF.defs_index(fr)
-    eqs = [(b, t) for b, t in fr.calls() if callee_of(t) and callee_of(t)['def'].endswith('PartialEq::eq') or callee_of(t) and callee_of(t)['def'].endswith('PartialEq::ne')]
-    def_eq = [(b, t) for b, t in eqs if 'Definition' in (callee_of(t).get('self_ty') or '') or 'Definition' in (callee_of(t).get('resolved') or '')]
-    text_eq = [(b, t) for b, t in eqs if (b, t) not in def_eq]
+    fam = family(facts, fr)
+    def_eq, text_eq = [], []
+    for f2 in fam:
+        for b, t in f2.calls():
+            info = callee_of(t)
+            if info and (info['def'].endswith('PartialEq::eq') or info['def'].endswith('PartialEq::ne')):
+                if 'Definition' in (info.get('self_ty') or '') or 'Definition' in (info.get('resolved') or ''):
+                    def_eq.append((f2, b, t))
+                else:
+                    text_eq.append((f2, b, t))
     if def_eq:
         c.ok(R, {'find_references': 'filters with <Definition as PartialEq>::eq', 'sites': len(def_eq)})
     else:
         c.bad(R, 'references-not-compared-by-definition', 'find_references no longer compares Definition values (comparing names conflates same-named binders in different scopes or modules)')
-    for b, t in text_eq:
+    for f2, b, t in text_eq:
         st = callee_of(t).get('self_ty') or ''
         c.bad(R, 'references-compared-by:%s' % st.split('::')[-1][:30], 'find_references compares %s values: references are matched by something other than the binding relation' % st)
     if def_eq:
-        b, t = def_eq[0]
+        f2, b, t = def_eq[0]
+        idx = MF.defs_index(f2)
         names = set()
         for a in t['args']:
             if 'l' in a:
-                names |= {P.strip(n).split('::')[-1] for n, _, _ in MF.slice_back(fr, a['l'], idx)['calls']}
+                names |= {P.strip(n).split('::')[-1] for n, _, _ in MF.slice_back(f2, a['l'], idx)['calls']}
         if 'definition' in names and 'core_ref' in names:
             c.ok(R, {'compared value': 'var.node().syntax().core_ref().definition()'})
         else:
             c.bad(R, 'compared-value-not-core-definition', 'the value compared in find_references is not the definition stored by the resolver on the variable node')
-    mods = P.call_blocks(fr, 'ModuleSet::modules')
-    desc = P.call_blocks(fr, 'NodeRef::descendants')
+    mods = [(f2, b, t) for f2 in fam for b, t in P.call_blocks(f2, 'ModuleSet::modules')]
+    desc = [(f2, b, t) for f2 in fam for b, t in P.call_blocks(f2, 'NodeRef::descendants')]
     subset = []
-    if mods:
-        for b, t in P.call_blocks(fr, 'Iterator::next'):
-            sl = MF.slice_back(fr, t['args'][0]['l'], idx, stop_at=lambda n: P.strip(n).split('::')[-1] in ('descendants', 'next', 'root', 'children'))
-            ns = {P.strip(n).split('::')[-1] for n, _, _ in sl['calls']}
-            if 'modules' in ns:
-                subset += sorted(ns & {'filter', 'take', 'skip', 'take_while', 'skip_while', 'filter_map', 'step_by', 'find', 'nth', 'last', 'min_by_key', 'max_by_key'})
+    SUB = {'filter', 'take', 'skip', 'take_while', 'skip_while', 'filter_map', 'step_by', 'find', 'nth', 'last', 'min_by_key', 'max_by_key'}
+    for f2, b, t in mods:
+        # forward: adaptors applied to the modules() iterator before it is consumed
+        cur = t['dest']['l']
+        for _ in range(8):
+            nxt = None
+            for b2, t2 in f2.calls():
+                if t2['args'] and t2['args'][0].get('l') == cur and not t2['args'][0]['proj']:
+                    nm = P.strip(callee_of(t2)['def']).split('::')[-1] if callee_of(t2) else '?'
+                    if nm in SUB:
+                        subset.append(nm)
+                    if nm in SUB or nm in ('into_iter', 'map', 'cloned', 'by_ref', 'peekable', 'inspect'):
+                        nxt = t2['dest']['l']
+            # moves
+            for b2, blk in f2.blocks():
+                for st in blk['stmts']:
+                    if st['s'] == 'assign' and st['rv']['r'] == 'use' and st['rv']['op'].get('l') == cur and not st['place']['proj']:
+                        nxt = nxt or st['place']['l']
+            if nxt is None:
+                break
+            cur = nxt
     if subset:
         c.bad(R, 'references-module-subset:%s' % ','.join(sorted(set(subset))), 'find_references searches only a subset of the folder\'s modules (%s on ModuleSet::modules()): uses bound to the definition in the other modules are not returned' % ', '.join(sorted(set(subset))))
-    elif mods and desc and desc[0][0] in fr.reachable_from(mods[0][0]):
+    elif mods and desc:
         c.ok(R, {'find_references': 'walks the descendants of every module of the folder'})
     else:
         c.bad(R, 'references-not-over-all-modules', 'find_references no longer walks every module of the folder (uses in importing modules are missed)')
-    casts = [callee_of(t).get('resolved', '') + callee_of(t).get('self_ty', '') for b, t in fr.calls() if callee_of(t) and callee_of(t)['def'].endswith('AbstractSyntaxNode::cast')]
-    casts += [callee_of(t).get('resolved', '') for cl in facts.closures_of(fr) for b, t in cl.calls() if callee_of(t)]
     hir_var = any(e['k'] == 'path' and (e['p'].get('def') or '').endswith('AbstractSyntaxNode::cast') and 'Variable' in e['ty'] for e, _ in hir_walk(fr.hir['body']))
-    if hir_var or any('Variable' in x for x in casts):
+    mir_var = any('Variable' in (callee_of(t).get('resolved', '') + (callee_of(t).get('self_ty') or '')) for f2 in fam for b, t in f2.calls()
+                  if callee_of(t) and callee_of(t)['def'].endswith('AbstractSyntaxNode::cast'))
+    if hir_var or mir_var:
         c.ok(R, {'find_references': 'considers Variable nodes'})
     else:
         c.bad(R, 'references-not-variables', 'find_references no longer filters Variable nodes')
@@ -120,12 +146,13 @@ def r1_def_ident(c, facts):
 def r2_ident_loc(c, facts):
     R = c.rule('C17.R2', 'IDENT-LOC: reference locations are the unqualified identifier nodes; offsets use the same document text')
     fr = c.anchor(R, 'oal_client::lsp::handlers::find_references')
-    idx = MF.defs_index(fr)
-    nl = P.call_blocks(fr, 'handlers::node_location')
+    nl = [(f2, b, t) for f2 in family(facts, fr) for b, t in P.call_blocks(f2, 'handlers::node_location')]
     if not nl:
         c.bad(R, 'references-without-node_location', 'find_references no longer computes locations with node_location')
     else:
-        sl = MF.slice_back(fr, nl[0][1]['args'][1]['l'], idx)
+        f2, b, t = nl[0]
+        idx = MF.defs_index(f2)
+        sl = MF.slice_back(f2, t['args'][1]['l'], idx)
         names = [P.strip(n).split('::')[-1] for n, _, _ in sl['calls']]
         if 'identifier' in names:
             c.ok(R, {'reference location': 'var.identifier().node()'})
